@@ -376,9 +376,25 @@ def run(ctx):
                                         timeout=600, env={"CXX2V_UNITS": UNITS_JSON})
     th = threading.Thread(target=translate)
     th.start()
+    cxx, cxx_problems, corpus, lines = {}, [], [], []
+    sw = os.path.join(ctx.work, "sweep")
     try:
         exe = vcheck.cxx_build(os.path.join(vcheck.VERIF, "harness", "C28", "main.cpp"), os.path.join(ctx.work, "h", "main"),
                                hook=False, opt="-O1")
+        # ---- cases; the real code runs on corpus + cases while the translator works ----------
+        for cf in sorted(glob.glob(os.path.join(vcheck.VERIF, "corpus", "C28", "*.txt"))):
+            corpus += [l.strip() for l in open(cf) if l.strip() and not l.startswith("#")]
+        cov["corpus_cases"] = len(corpus)
+        if replay_lines is not None:
+            lines = [split_line(l)[0] for l in replay_lines]
+            corpus = []
+        else:
+            lines = list(collections.OrderedDict.fromkeys(gen_cases(ctx)))
+        shutil.rmtree(sw, ignore_errors=True)
+        corpus_cases = [split_line(l)[0] for l in corpus]
+        t1 = time.time()
+        cxx, cxx_problems = run_cases(exe, list(collections.OrderedDict.fromkeys(corpus_cases + lines)), sw, "cxx", 900)
+        ctx.log("real code: %d cases run in %.0fs" % (len(cxx), time.time() - t1))
     finally:
         th.join()
     ctx.log("cxx2v:", tr["out"].strip().replace("\n", " | ")[-400:])
@@ -391,34 +407,12 @@ def run(ctx):
     if tr["rc"] != 0:
         failures.append(("translator", {"message": tr["out"][-1500:]}))
 
-    # ---- cases ---------------------------------------------------------------------------------
-    corpus = []
-    for cf in sorted(glob.glob(os.path.join(vcheck.VERIF, "corpus", "C28", "*.txt"))):
-        corpus += [l.strip() for l in open(cf) if l.strip() and not l.startswith("#")]
-    cov["corpus_cases"] = len(corpus)
-    if replay_lines is not None:
-        lines = [split_line(l)[0] for l in replay_lines]
-        corpus = []
-    else:
-        lines = gen_cases(ctx)
-    sw = os.path.join(ctx.work, "sweep")
-    shutil.rmtree(sw, ignore_errors=True)
-
-    # ---- 2. real code on corpus + cases (while Coq builds), 3. proof obligations, model -------
-    res_holder, model_holder = {}, {}
-
-    def coq():
-        res_holder["res"] = vcheck.coq_build(["Properties/Properties_C28.v"], timeout=1500)
+    # ---- 2./3. proof obligations, model ---------------------------------------------------------
+    model_holder = {}
 
     def model():
         model_holder["m"] = build_model(ctx) if tr["rc"] == 0 else (None, "translation failed")
-    tc = threading.Thread(target=coq)
-    tc.start()
-    corpus_cases = [split_line(l)[0] for l in corpus]
-    cxx, cxx_problems = run_cases(exe, corpus_cases + lines, sw, "cxx", 900)
-    ctx.log("real code: %d cases run in %.0fs" % (len(cxx), time.time() - t0))
-    tc.join()
-    res = res_holder["res"]
+    res = vcheck.coq_build(["Properties/Properties_C28.v"], timeout=1500)
     ctx.coq_evidence(res)
     ctx.log("coq: %d/%d obligations discharged in %.0fs" % (len(res.discharged), len(res.obligations), res.wall_s))
     if not res.ok:
